@@ -11,6 +11,7 @@ Sections `h=kube`:
 -/
 import GoZero.Base.Trace
 import GoZero.C13.Spec
+import GoZero.C13.Multi
 namespace GoZero.C13
 
 open GoZero
@@ -492,6 +493,20 @@ def PSt.doRevoke (st : PSt) (e : PEnt) : PSt × List Ev :=
   if e.sibling then ({ st' with xstore := storeRevoke st'.xstore e.pub.lease }, [])
   else ({ st' with store := storeRevoke st'.store e.pub.lease }, revokeEvents st'.store e.pub.lease)
 
+/-- the attempts of one operation (`doKeepAlive`, or the single attempt of `KeepAlive`) with the outcomes etcd gave -/
+def PSt.doAttempts (st : PSt) (e : PEnt) (as : List Attempt) : PSt × List Ev :=
+  let base := if e.sibling then st.xstore else st.store
+  let res := doKeepAlive true e.pub base as
+  let st' := st.setPub { e with pub := res.1, running := res.2.2 }
+  if e.sibling then ({ st' with xstore := res.2.1 }, [])
+  else ({ st' with store := res.2.1 }, attemptEvents e.pub as)
+
+/-- `!<kind>:<n>` -/
+def parseFault (t : String) : Option (String × Nat) :=
+  match (String.ofList (t.toList.drop 1)).splitOn ":" with
+  | [k, n] => if ["grant", "put", "ka", "revoke"].contains k then n.toNat?.map fun n => (k, n) else none
+  | _ => none
+
 def evTok : Ev → String
   | .put k v => s!"p:{k}:{v}"
   | .del k => s!"d:{k}"
@@ -508,16 +523,38 @@ def keysOfVals (s : String) : List Nat :=
     | [_, ks] => ((ks.replace "[" "").replace "]" "").splitOn "." |>.filterMap (·.toNat?)
     | _ => []
 
-def runPubLine (st0 : PSt) (r0 : Report) (sec : Nat) (l : Line) : PSt × Report := Id.run do
+def runPubLine (st0 : PSt) (r0 : Report) (sec : Nat) (l0 : Line) : PSt × Report := Id.run do
   let mut r := r0
   let mut st := st0
+  if (kv? l0.obs "dead").isSome then return (st0, r.addCover "line-after-a-publisher-gave-up")
+  -- fault injection: `!<kind>:<n>` as the last token of the operation
+  let faultTok := (l0.op.getLast?).filter (·.startsWith "!")
+  let fault := faultTok.bind parseFault
+  if faultTok.isSome && fault.isNone then return (st0, r.mismatch sec l0.idx "bad-fault" (joinSp l0.op))
+  let l : Line := if faultTok.isSome then { l0 with op := l0.op.dropLast } else l0
   let leases := (splitComma (kvStr l.obs "leases" "")).filterMap parseLease
   let leaseOf (p : Nat) : Option Nat := (leases.find? (·.1 = p)).map (·.2.1)
   let mut evs : List Ev := []
   let mut bad := false
   let kind := l.op.headD "?"
+  match fault with
+  | some (fk, fn) =>
+    r := r.addCover s!"fault-{fk}-during-{kind}"
+    if fn ≥ 2 then r := r.addCover "fault-several-failed-attempts-in-a-row"
+    let okKind := if fk == "revoke" then (kind == "pause" || kind == "stop") else (kind == "pub" || kind == "resume" || kind == "kaclose")
+    if !okKind || (kind ≠ "pub" && l.op.length ≠ 2) then bad := true
+  | none => pure ()
+  if (kv? l.obs "gaveup").isSome then
+    r := r.violation sec l.idx s!"publisher-gave-up-re-registering-after-a-failed-attempt op=[{joinSp l0.op}] store=[{kvStr l.obs "store" "?"}] (every armed failure happened, no further attempt followed: doKeepAlive must try again at every tick until it succeeds)"
   match l.op with
-  | ["sub"] | ["rl"] | ["join"] => pure ()
+  | ["sub"] | ["rl"] | ["join"] => if fault.isSome then bad := true
+  | ["expire"] =>
+    -- the leases of the publishers whose keep-alive goroutine runs are renewed, every other lease expires
+    let alive := (st.pubs.filter (·.running)).map (·.pub.lease)
+    let gone := (sortByFst (st.store.filter fun e => !alive.contains e.2.2)).map (·.1)
+    evs := gone.map .del
+    if !gone.isEmpty then r := r.addCover "lease-expiry-removes-an-orphan-key" else r := r.addCover "lease-expiry-nothing-to-remove"
+    st := { st with store := storeExpire st.store alive, xstore := storeExpire st.xstore alive }
   | "pub" :: args | "pubx" :: args =>
     let k := kind
     match args with
@@ -526,9 +563,21 @@ def runPubLine (st0 : PSt) (r0 : Report) (sec : Nat) (l : Line) : PSt × Report 
      | some p, some id, some v =>
       match leaseOf p, st.pubs.find? (·.p = p) with
       | some lease, none =>
-        let (st', e') := st.doRegister { p := p, pub := { id := id, value := v }, sibling := k == "pubx", running := false } lease
-        st := st'
-        evs := evs ++ e'
+        let e0 : PEnt := { p := p, pub := { id := id, value := v }, sibling := k == "pubx", running := false }
+        match fault with
+        | none =>
+          let (st', e') := st.doRegister e0 lease
+          st := st'
+          evs := evs ++ e'
+          if (kv? l.obs "err").isSome then r := r.mismatch sec l.idx "KeepAlive()=nil" "err=1"
+        | some (fk, _) =>
+          -- KeepAlive(): one attempt, the error is returned, no keep-alive goroutine
+          let a : Attempt := if fk == "grant" then .grantErr else if fk == "put" then .putErr lease else .kaErr lease
+          let (st', e') := st.doAttempts e0 [a]
+          st := st'
+          evs := evs ++ e'
+          if (kv? l.obs "err").isNone then r := r.mismatch sec l.idx "KeepAlive()=error" "err=<absent>"
+          r := r.addCover "KeepAlive-returns-the-error"
         r := r.addCover (if id > 0 then "publisher-with-fixed-id" else "publisher-keyed-by-lease")
         if k == "pubx" then r := r.addCover "publisher-of-the-sibling-service"
         if !st0.subscribed then r := r.addCover "publisher-registered-before-the-subscriber"
@@ -542,22 +591,37 @@ def runPubLine (st0 : PSt) (r0 : Report) (sec : Nat) (l : Line) : PSt × Report 
       | none => bad := true
       | some e =>
         if k == "pause" || k == "stop" || k == "kaclose" then
-          let (st', e') := st.doRevoke e
-          st := st'
-          evs := evs ++ e'
+          if fault.isSome && k != "kaclose" then
+            -- the revocation failed (only logged): the key stays in etcd until its lease expires
+            st := st.setPub { e with running := false }
+            if e.running then r := r.addCover "revoke-failed-key-left-to-the-lease-ttl"
+          else if k == "kaclose" || e.running then
+            let (st', e') := st.doRevoke e
+            st := st'
+            evs := evs ++ e'
           if k == "stop" && !e.running then r := r.addCover "stop-of-a-paused-publisher"
         if k == "resume" || k == "kaclose" then
           match leaseOf e.p, st.pubs.find? (·.p = e.p) with
           | some lease, some e1 =>
-            let (st', e') := st.doRegister e1 lease
-            st := st'
-            evs := evs ++ e'
+            match fault with
+            | none =>
+              let (st', e') := st.doRegister e1 lease
+              st := st'
+              evs := evs ++ e'
+            | some (fk, fn) =>
+              let fg := if fk == "grant" then fn else 0
+              let fp := if fk == "put" then fn else 0
+              let fka := if fk == "ka" then fn else 0
+              let (st', e') := st.doAttempts e1 (attemptsFor fg fp fka (lease - fp - fka))
+              st := st'
+              evs := evs ++ e'
+              r := r.addCover "re-registration-succeeds-after-failed-attempts"
             if e.pub.id > 0 then r := r.addCover "fixed-id-publisher-registers-again-under-the-same-key"
             else r := r.addCover "lease-keyed-publisher-registers-again-under-a-new-key"
           | _, _ => bad := true
     if ps.length > 1 then r := r.addCover s!"{k}-of-several-publishers"
   | [] => bad := true
-  if bad then return (st0, r.mismatch sec l.idx "bad-op" (joinSp (l.op ++ ["=>"] ++ l.obs)))
+  if bad then return (st0, r.mismatch sec l.idx "bad-op" (joinSp (l0.op ++ ["=>"] ++ l.obs)))
   r := r.addCover s!"pub-{kind}"
   -- the publishers' bookkeeping: p.lease / p.fullKey, and what etcd holds
   for e in st.pubs do
@@ -569,7 +633,7 @@ def runPubLine (st0 : PSt) (r0 : Report) (sec : Nat) (l : Line) : PSt × Report 
   if showStore st.store ≠ kvStr l.obs "store" "?" then r := r.mismatch sec l.idx s!"store={showStore st.store}" s!"store={kvStr l.obs "store" "?"}"
   if showStore st.xstore ≠ kvStr l.obs "xstore" "?" then r := r.mismatch sec l.idx s!"xstore={showStore st.xstore}" s!"xstore={kvStr l.obs "xstore" "?"}"
   if (kv? l.obs "timeout").isSome then
-    r := r.violation sec l.idx s!"publisher-did-not-register-or-revoke op=[{joinSp l.op}] store=[{kvStr l.obs "store" "?"}]"
+    r := r.violation sec l.idx s!"publisher-did-not-register-or-revoke op=[{joinSp l0.op}] store=[{kvStr l.obs "store" "?"}]"
   if (st.pubs.filter fun e => !e.sibling && e.running).length ≥ 2 then r := r.addCover "several-live-publishers"
   if (st.pubs.any fun e => e.sibling && e.running) then r := r.addCover "sibling-service-registered"
   if !st.subscribed && kind ≠ "sub" then
@@ -594,16 +658,20 @@ def runPubLine (st0 : PSt) (r0 : Report) (sec : Nat) (l : Line) : PSt × Report 
       -- several publishers act concurrently in one operation: etcd's order of their puts / revokes is observed
       let obsEvs := ((splitComma (kvStr l.obs "log" "")).filterMap parseLogTok).map levToEv
       let use := if l.op.length > 2 && obsEvs.length == evs.length && evs.all (fun e => obsEvs.any (evTok · == evTok e)) then obsEvs else evs
-      { l with op := "batch" :: use.map evTok }
+      if use.isEmpty then { l with op := ["idle"] } else { l with op := "batch" :: use.map evTok }
   if kind == "sub" && !st.store.isEmpty then r := r.addCover "subscriber-loads-registered-publishers"
   let (sub', r') := runSubLine st.sub r sec line
   r := r'
-  -- the property at the publisher level: Values() is the set of values of the live publishers of this service
-  if !st.sub.excl then
+  -- the property at the publisher level: Values() is the set of values of the live publishers of this service —
+  -- unless a failed call left a key behind that nobody renews (it lives until its lease expires: `expire`)
+  let alive := (st.pubs.filter (·.running)).map (·.pub.lease)
+  let orphans := st.store.filter fun e => !alive.contains e.2.2
+  if !orphans.isEmpty then r := r.addCover "orphan-key-awaiting-lease-expiry"
+  if !st.sub.excl && orphans.isEmpty then
     let want := showNats (Spec.canonSet ((st.pubs.filter fun e => !e.sibling && e.running).map (·.pub.value)))
     let implValues := kvStr l.obs "values" "?"
     if want ≠ implValues then
-      r := r.violation sec l.idx s!"view-differs-from-live-publishers spec=[{want}] impl=[{implValues}] op=[{joinSp l.op}] store=[{kvStr l.obs "store" "?"}]"
+      r := r.violation sec l.idx s!"view-differs-from-live-publishers spec=[{want}] impl=[{implValues}] op=[{joinSp l0.op}] store=[{kvStr l.obs "store" "?"}]"
   return ({ st with sub := sub', subscribed := true }, r)
 
 def runPubSection (r : Report) (s : Section) : Report := Id.run do
